@@ -523,6 +523,7 @@ func scnC16L1(rc *RunCtx) {
 	type cl struct{ at, cutAbs int } // cut-off absolute in half-seconds (2*s+1)
 	var cls []cl
 	extra := map[int]int{}
+	ended := map[int]bool{}
 	horizon := 40
 	var ghosts []*Session
 	for si := 0; si < n; si++ {
@@ -530,12 +531,20 @@ func scnC16L1(rc *RunCtx) {
 		s := &Session{Ses: fmt.Sprint(900 + si), PID: pid, UID: 1000 + si, Kind: "ssh"}
 		s.Login = GenLogin(t, pid, si+1)
 		s.Events = append(s.Events, k.Login(s.Ses, pid, s.UID))
-		s.Events = append(s.Events, GenAction(t, k, s.Ses, pid, s.UID))
+		loginFirst := t.Choose(2, "loginfirst") == 1
+		if !loginFirst && t.Choose(4, "short.session") == 3 {
+			// a short session: it is over (credential disposal held with its LOGIN record) before
+			// its login line arrives; still a waiting half like any other
+			s.Events = append(s.Events, k.UserMsg("CRED_DISP", s.Ses, pid, s.UID, true, 0))
+			ended[si] = true
+			rc.Sim.Count("c16.waiting_session_already_ended")
+		} else {
+			s.Events = append(s.Events, GenAction(t, k, s.Ses, pid, s.UID))
+		}
 		s.Events = append(s.Events, k.UserMsg("USER_LOGIN", s.Ses, pid, s.UID, true, 0)) // probe
 		w.Sessions = append(w.Sessions, s)
 		t1 := 1 + t.Choose(horizon-10, "t1")
 		t2 := t1 + 1 + t.Choose(horizon-t1-2, "gap")
-		loginFirst := t.Choose(2, "loginfirst") == 1
 		if loginFirst && t1 > 1 && t.Choose(4, "superseded") == 3 {
 			// an earlier sshd process with the same PID logged in but never got an audit session;
 			// its login still waits when this one arrives and is superseded by it
@@ -679,6 +688,13 @@ func scnC16L1(rc *RunCtx) {
 		}
 		expectCorrelated := ps[si].state == stBound
 		switch {
+		case expectCorrelated && ended[si]:
+			// the session was over when its login arrived: its two held events are released (what
+			// comes after its credential disposal is unspecified)
+			if cnt < 2+extra[si] {
+				rc.Fail("C16", "kept-half-lost", "session s%d (already ended when its login arrived): neither half was older than any cut-off given to cleanup before the other half arrived, yet only %d of its %d held events were emitted", si, cnt, 2+extra[si])
+				return
+			}
 		case expectCorrelated && !probe:
 			rc.Fail("C16", "kept-half-lost", "session s%d: neither half was older than any cut-off given to cleanup before the other half arrived, yet the session was not correlated (probe event not emitted; %d events emitted)", si, cnt)
 			return
